@@ -3,7 +3,12 @@
 import json
 rows = {}
 for l in open('/verif/notes/mutants-results.jsonl'):
-    r = json.loads(l); rows[r['id']] = r
+    r = json.loads(l)
+    if r['id'] in rows and r.get('checks') and rows[r['id']].get('checks'):
+        old = rows[r['id']]; old['checks'].update(r['checks']); old['status'] = r.get('status', old.get('status'))
+        if 'suite' in r: old['suite'] = r['suite']
+    else:
+        rows[r['id']] = r
 def line(r):
     ch = r.get('checks', {})
     caught = [k for k, v in ch.items() if v['exit'] == 1]
